@@ -166,7 +166,10 @@ class InvokeOperationExecutor(OperationExecutor[R]):
             ExecutionError: If suspend doesn't raise (should never happen)
         """
         msg: str = f"Invoke {self.operation_identifier.operation_id} started, suspending for completion"
-        suspend_with_optional_resume_delay(msg, self.config.timeout_seconds)
+        # A timeout of 0 means "no timeout" (the InvokeConfig default): suspend until the invoke
+        # completes. Passing 0 would mean "resume now", which makes map/parallel re-submit the branch
+        # immediately, over and over, and can keep the invocation from ever suspending.
+        suspend_with_optional_resume_delay(msg, self.config.timeout_seconds or None)
         # This line should never be reached since suspend_with_optional_resume_delay always raises
         error_msg: str = "suspend_with_optional_resume_delay should have raised an exception, but did not."
         raise ExecutionError(error_msg) from None
